@@ -32,7 +32,7 @@ import (
 
 type c09Meas struct {
 	Accepted bool
-	A, S     uint64
+	A, S, H  uint64 // S = max(reflective deep size, H); H = heap kept alive by the decoded value
 	N, D     int
 }
 
@@ -174,18 +174,88 @@ func c09Measure(v6 bool, b []byte) c09Meas {
 	if val != nil {
 		m.S = deepSizeTotal(reflect.ValueOf(val))
 	}
-	val = nil
 	debug.SetGCPercent(old)
-	runtime.GC()
+	if val != nil {
+		// what the value keeps alive, as the collector sees it (backing arrays pinned by small windows included)
+		// (two collections first: sync.Pool contents survive one cycle in the victim cache and would otherwise
+		// be counted as dying with the value)
+		in = nil
+		runtime.GC()
+		runtime.GC()
+		runtime.ReadMemStats(&m0)
+		runtime.KeepAlive(val)
+		val = nil
+		runtime.GC()
+		runtime.ReadMemStats(&m1)
+		if m0.HeapAlloc > m1.HeapAlloc {
+			m.H = m0.HeapAlloc - m1.HeapAlloc
+		}
+		if m.H > m.S {
+			m.S = m.H
+		}
+	} else {
+		runtime.GC()
+	}
 	return m
 }
 
 // ---- adversarial families ----------------------------------------------------
 
 type c09Family struct {
-	Name string
-	V6   bool
-	Make func(n int, variant int) []byte
+	Name     string
+	V6       bool
+	Make     func(n int, variant int) []byte
+	Variants int // 0 = 6
+	MaxN     int // 0 = the whole ladder
+}
+
+// container options that hold options of the top-level space: code, fixed header
+var c09Containers = []struct {
+	Code uint16
+	Hdr  []byte
+}{
+	{3, make([]byte, 12)},
+	{4, make([]byte, 4)},
+	{5, append(append(make([]byte, 15), 1), 0, 0, 0, 10, 0, 0, 0, 20)},
+	{25, make([]byte, 12)},
+	{26, append([]byte{0, 0, 0, 10, 0, 0, 0, 20, 64, 0x20, 1}, make([]byte, 14)...)},
+	{26, append([]byte{0, 0, 0, 10, 0, 0, 0, 20, 0}, make([]byte, 16)...)}, // prefix length 0
+	{97, nil},
+}
+
+// c09Patterns: every single container and every unordered pair, alternating.
+var c09Patterns = func() [][]int {
+	var p [][]int
+	for i := range c09Containers {
+		p = append(p, []int{i})
+	}
+	for i := range c09Containers {
+		for j := i + 1; j < len(c09Containers); j++ {
+			p = append(p, []int{i, j})
+		}
+	}
+	return p
+}()
+
+// c09Nest builds a message whose options nest along one path following the pattern; with siblings, every level
+// also carries an IA Address, an IA Prefix (length 64) and a status code next to the nested container.
+func c09Nest(n int, pattern []int, siblings bool) []byte {
+	sib := []byte{}
+	if siblings {
+		sib = append(sib, v6opt(5, c09Containers[2].Hdr)...)
+		sib = append(sib, v6opt(26, c09Containers[4].Hdr)...)
+		sib = append(sib, v6opt(13, []byte{0, 0, 'o', 'k'})...)
+	}
+	var inner []byte
+	for lvl := 0; ; lvl++ {
+		c := c09Containers[pattern[lvl%len(pattern)]]
+		body := append(append(append([]byte{}, c.Hdr...), sib...), inner...)
+		if len(body)+4 > n-4 || len(body) > 65535 {
+			break
+		}
+		inner = v6opt(c.Code, body)
+	}
+	return append([]byte{1, 1, 2, 3}, inner...)
 }
 
 func rep(unit []byte, n int) []byte {
@@ -209,7 +279,7 @@ func clip64k(p []byte) []byte {
 }
 
 var c09Families = []c09Family{
-	{"v6/label-pointer-fan", true, func(n, variant int) []byte {
+	{Name: "v6/label-pointer-fan", V6: true, Make: func(n, variant int) []byte {
 		// one name as long as the limits allow, then pointers onto it
 		var name []byte
 		switch variant % 3 {
@@ -223,16 +293,16 @@ var c09Families = []c09Family{
 		p := append(name, rep([]byte{0xC0, 0x00}, max(0, n-len(name)-8))...)
 		return append([]byte{1, 1, 2, 3}, v6opt(24, clip64k(p))...)
 	}},
-	{"v6/label-unterminated-run", true, func(n, variant int) []byte {
+	{Name: "v6/label-unterminated-run", V6: true, Make: func(n, variant int) []byte {
 		p := rep([]byte{byte(1 + variant%63), 'a', 'b', 'c'}[:2+variant%3], n-8)
 		return append([]byte{1, 1, 2, 3}, v6opt(24, clip64k(p))...)
 	}},
-	{"v6/ntp-fqdn-fan", true, func(n, variant int) []byte {
+	{Name: "v6/ntp-fqdn-fan", V6: true, Make: func(n, variant int) []byte {
 		name := append(rep([]byte{1, 'a'}, 252), 0)
 		p := append(name, rep([]byte{0xC0, 0x00}, max(0, n-len(name)-12))...)
 		return append([]byte{1, 1, 2, 3}, v6opt(56, clip64k(v6opt(3, clip64k(p)[:min(len(p), 65531)])))...)
 	}},
-	{"v6/label-second-framing", true, func(n, variant int) []byte {
+	{Name: "v6/label-second-framing", V6: true, Make: func(n, variant int) []byte {
 		// in-place names of three 63-octet labels whose content, read from offset 1, is a second chain of
 		// 63-octet labels stepping over the in-place length octets; then bare pointers into that content.
 		var region []byte
@@ -251,7 +321,7 @@ var c09Families = []c09Family{
 		p := append(region, rep([]byte{0xC0, byte(target)}, max(0, n-len(region)-8))...)
 		return append([]byte{1, 1, 2, 3}, v6opt(24, clip64k(p))...)
 	}},
-	{"v6/relaymsg-in-plain-message", true, func(n, variant int) []byte {
+	{Name: "v6/relaymsg-in-plain-message", V6: true, Make: func(n, variant int) []byte {
 		// option 9 carrying a plain (non-relay) message that again carries option 9 …: 8 bytes per level
 		inner := []byte{byte(1 + variant%11), 1, 2, 3}
 		for len(inner)+8 <= n && len(inner) <= 65000 {
@@ -259,7 +329,7 @@ var c09Families = []c09Family{
 		}
 		return inner
 	}},
-	{"v6/relay-nesting", true, func(n, variant int) []byte {
+	{Name: "v6/relay-nesting", V6: true, Make: func(n, variant int) []byte {
 		inner := []byte{1, 1, 2, 3}
 		for len(inner)+38 <= n && len(inner)+4 <= 65535 {
 			hdr := make([]byte, 34)
@@ -268,7 +338,7 @@ var c09Families = []c09Family{
 		}
 		return inner
 	}},
-	{"v6/ia-nesting", true, func(n, variant int) []byte {
+	{Name: "v6/ia-nesting", V6: true, Make: func(n, variant int) []byte {
 		code := []uint16{3, 25, 4}[variant%3]
 		hdr := map[uint16]int{3: 12, 25: 12, 4: 4}[code]
 		var inner []byte
@@ -277,11 +347,35 @@ var c09Families = []c09Family{
 		}
 		return append([]byte{1, 1, 2, 3}, inner...)
 	}},
-	{"v6/minimal-options", true, func(n, variant int) []byte {
+	{Name: "v6/container-patterns", V6: true, Variants: 2 * len(c09Patterns), MaxN: 16384, Make: func(n, variant int) []byte {
+		return c09Nest(n, c09Patterns[variant%len(c09Patterns)], variant >= len(c09Patterns))
+	}},
+	{Name: "v6/announced-length-overrun", V6: true, Variants: 20, Make: func(n, variant int) []byte {
+		// items whose announced length exceeds what is left, repeated: the datagram is rejected (or the
+		// item skipped) and must cost no more than its size
+		code := []uint16{60, 15, 16, 17, 56}[variant%5]
+		unit := [][]byte{{0xff, 0xff}, {0xff, 0xfe, 0x7f}, {0x80, 0x00, 0, 1}, {0, 1, 0xff, 0xff}}[variant/5%4]
+		var p []byte
+		if code == 16 || code == 17 {
+			p = []byte{0, 0, 0, 9}
+		}
+		if variant%2 == 1 {
+			p = append(p, 0, 1, 'x') // one good item first (for 17/56: a malformed prefix)
+		}
+		p = append(p, rep(unit, max(0, n-12-len(p)))...)
+		return append([]byte{1, 1, 2, 3}, v6opt(code, clip64k(p))...)
+	}},
+	{Name: "v6/toplevel-length-overrun", V6: true, Variants: 12, Make: func(n, variant int) []byte {
+		// small valid options, then one option of every container/list kind announcing 65535 bytes
+		code := []uint16{1, 3, 5, 6, 9, 15, 17, 23, 24, 25, 60, 97}[variant%12]
+		p := rep([]byte{0, 14, 0, 0}, max(0, n-12))
+		return append(append([]byte{1, 1, 2, 3}, p...), byte(code>>8), byte(code), 0xff, 0xff, 1, 2, 3, 4)
+	}},
+	{Name: "v6/minimal-options", V6: true, Make: func(n, variant int) []byte {
 		unit := [][]byte{{0, 14, 0, 0}, {0, 200, 0, 0}, {0, 18, 0, 0}, {0, 59, 0, 0}, {0, 6, 0, 0}, {0, 60, 0, 0}}[variant%6]
 		return append([]byte{1, 1, 2, 3}, rep(unit, n-4)...)
 	}},
-	{"v6/empty-items", true, func(n, variant int) []byte {
+	{Name: "v6/empty-items", V6: true, Make: func(n, variant int) []byte {
 		code := []uint16{15, 60, 16}[variant%3]
 		p := rep([]byte{0, 0}, n-12)
 		if code == 16 {
@@ -289,11 +383,11 @@ var c09Families = []c09Family{
 		}
 		return append([]byte{1, 1, 2, 3}, v6opt(code, clip64k(p))...)
 	}},
-	{"v6/vendor-opts-minimal", true, func(n, variant int) []byte {
+	{Name: "v6/vendor-opts-minimal", V6: true, Make: func(n, variant int) []byte {
 		p := append([]byte{0, 0, 0, 9}, rep([]byte{0, 1, 0, 0}, n-16)...)
 		return append([]byte{1, 1, 2, 3}, v6opt(17, clip64k(p))...)
 	}},
-	{"v6/oro-many", true, func(n, variant int) []byte {
+	{Name: "v6/oro-many", V6: true, Make: func(n, variant int) []byte {
 		var p []byte
 		for i := 0; len(p)+2 <= n-8 && i < 32767; i++ {
 			c := uint16(i)
@@ -304,32 +398,32 @@ var c09Families = []c09Family{
 		}
 		return append([]byte{1, 1, 2, 3}, v6opt(6, p)...)
 	}},
-	{"v6/dhcpv4-in-dhcpv6", true, func(n, variant int) []byte {
+	{Name: "v6/dhcpv4-in-dhcpv6", V6: true, Make: func(n, variant int) []byte {
 		inner := append(v4Prefix(), rep(append([]byte{43, 255}, make([]byte, 255)...), max(0, min(n, 65000)-250))...)
 		inner = append(inner, 255)
 		return append([]byte{20, 0, 0, 0}, v6opt(87, inner)...)
 	}},
-	{"v6/addresses", true, func(n, variant int) []byte {
+	{Name: "v6/addresses", V6: true, Make: func(n, variant int) []byte {
 		code := []uint16{23, 88}[variant%2]
 		return append([]byte{1, 1, 2, 3}, v6opt(code, clip64k(rep(make([]byte, 16), n-8)))...)
 	}},
-	{"v4/repeated-option-255", false, func(n, variant int) []byte {
+	{Name: "v4/repeated-option-255", V6: false, Make: func(n, variant int) []byte {
 		return append(append(v4Prefix(), rep(append([]byte{43, 255}, make([]byte, 255)...), n-241)...), 255)
 	}},
-	{"v4/repeated-option-1", false, func(n, variant int) []byte {
+	{Name: "v4/repeated-option-1", V6: false, Make: func(n, variant int) []byte {
 		return append(append(v4Prefix(), rep([]byte{43, 1, 'x'}, n-241)...), 255)
 	}},
-	{"v4/repeated-option-0", false, func(n, variant int) []byte {
+	{Name: "v4/repeated-option-0", V6: false, Make: func(n, variant int) []byte {
 		return append(append(v4Prefix(), rep([]byte{byte(1 + variant%254), 0}, n-241)...), 255)
 	}},
-	{"v4/many-codes", false, func(n, variant int) []byte {
+	{Name: "v4/many-codes", V6: false, Make: func(n, variant int) []byte {
 		var a []byte
 		for i := 0; len(a)+3 <= n-241; i++ {
 			a = append(a, byte(1+i%254), 1, byte(i))
 		}
 		return append(append(v4Prefix(), a...), 255)
 	}},
-	{"v4/pads", false, func(n, variant int) []byte {
+	{Name: "v4/pads", V6: false, Make: func(n, variant int) []byte {
 		return append(append(v4Prefix(), make([]byte, max(0, n-241))...), 255)
 	}},
 }
@@ -407,6 +501,9 @@ var c09scale = newChk("C09", "family-scaling",
 		f := c09Families[c.Family%len(c09Families)]
 		var base c09Meas
 		for _, n := range c09Ladder {
+			if f.MaxN > 0 && n > f.MaxN {
+				break
+			}
 			b := f.Make(n, c.Variant)
 			m := c09Measure(f.V6, b)
 			rec.Class(fmt.Sprintf("%s n=%d accepted=%v", f.Name, n, m.Accepted))
@@ -461,7 +558,7 @@ func c09Observe(name string, m c09Meas) {
 
 func TestC09_Families(t *testing.T) {
 	for fi := range c09Families {
-		for v := 0; v < 6; v++ {
+		for v := 0; v < max(6, c09Families[fi].Variants); v++ {
 			c09scale.one(t, c09Case{Family: fi, Variant: v})
 		}
 	}
